@@ -59,9 +59,12 @@ func (x *Exec) tryComprehension(fr *Frame, li *loopInfo, pred *ssa.BasicBlock, s
 	if body == nil || exit == nil || len(body.Succs) != 1 || body.Succs[0] != h || len(body.Preds) != 1 {
 		return nil, false
 	}
-	// header: two phis, inc, compare, if
+	// header: an index phi, optionally the accumulating slice phi, the
+	// increment (range loops), the bound (len of the source, possibly loaded
+	// in the header), compare, if
 	var phiA, phiI *ssa.Phi
-	var inc, cmp *ssa.BinOp
+	var hinc, cmp *ssa.BinOp
+	var hdrEval []ssa.Instruction // header instructions evaluated for the generic position
 	for _, ins := range h.Instrs {
 		switch v := ins.(type) {
 		case *ssa.Phi:
@@ -77,33 +80,44 @@ func (x *Exec) tryComprehension(fr *Frame, li *loopInfo, pred *ssa.BasicBlock, s
 				phiI = v
 			}
 		case *ssa.BinOp:
-			if v.Op == token.ADD && inc == nil {
-				inc = v
+			if v.Op == token.ADD && hinc == nil {
+				hinc = v
 			} else if v.Op == token.LSS && cmp == nil {
 				cmp = v
 			} else {
 				return nil, false
 			}
+		case *ssa.FieldAddr:
+			hdrEval = append(hdrEval, ins)
+		case *ssa.UnOp:
+			if v.Op != token.MUL {
+				return nil, false
+			}
+			hdrEval = append(hdrEval, ins)
+		case *ssa.Call:
+			if b, ok := v.Call.Value.(*ssa.Builtin); !ok || b.Name() != "len" {
+				return nil, false
+			}
+			hdrEval = append(hdrEval, ins)
 		case *ssa.If, *ssa.DebugRef:
 		default:
 			return nil, false
 		}
 	}
-	if phiA == nil || phiI == nil || inc == nil || cmp == nil {
-		return nil, false
-	}
-	one, ok := inc.Y.(*ssa.Const)
-	if !ok || inc.X != phiI || one.Value == nil || one.Value.ExactString() != "1" || cmp.X != inc {
+	if phiI == nil || cmp == nil {
 		return nil, false
 	}
 	if iff, ok := h.Instrs[len(h.Instrs)-1].(*ssa.If); !ok || iff.Cond != cmp || h.Succs[0] != body {
 		return nil, false
 	}
 	lenCall, ok := cmp.Y.(*ssa.Call)
-	if !ok || li.blocks[lenCall.Block()] {
+	if !ok {
 		return nil, false
 	}
 	if b, ok := lenCall.Call.Value.(*ssa.Builtin); !ok || b.Name() != "len" {
+		return nil, false
+	}
+	if li.blocks[lenCall.Block()] && lenCall.Block() != h {
 		return nil, false
 	}
 	src := lenCall.Call.Args[0]
@@ -122,17 +136,45 @@ func (x *Exec) tryComprehension(fr *Frame, li *loopInfo, pred *ssa.BasicBlock, s
 	if pi < 0 || bi < 0 || (pred != nil && h.Preds[pi] != pred) {
 		return nil, false
 	}
-	if c, ok := phiI.Edges[pi].(*ssa.Const); !ok || c.Value == nil || c.Value.ExactString() != "-1" || phiI.Edges[bi] != inc {
+	// the position: range loops count from -1 and increment in the header,
+	// index loops count from 0 and increment at the end of the body
+	var idx ssa.Value
+	var binc *ssa.BinOp
+	isOne := func(v ssa.Value) bool {
+		c, ok := v.(*ssa.Const)
+		return ok && c.Value != nil && c.Value.ExactString() == "1"
+	}
+	c0, ok := phiI.Edges[pi].(*ssa.Const)
+	if !ok || c0.Value == nil {
 		return nil, false
 	}
-	if init := x.val(fr, phiA.Edges[pi]); !init.isNilConst() && !(init.Op == "list" && len(init.Args) == 0) {
+	switch {
+	case hinc != nil && c0.Value.ExactString() == "-1" && hinc.X == phiI && isOne(hinc.Y) && cmp.X == hinc && phiI.Edges[bi] == hinc && len(hdrEval) == 0:
+		idx = hinc
+	case hinc == nil && c0.Value.ExactString() == "0" && cmp.X == phiI:
+		b, ok := phiI.Edges[bi].(*ssa.BinOp)
+		if !ok || b.Op != token.ADD || b.X != phiI || !isOne(b.Y) || b.Block() != body {
+			return nil, false
+		}
+		binc, idx = b, phiI
+	default:
 		return nil, false
 	}
-	// body: loads, the varargs array, exactly one append to phiA
+	if phiA != nil {
+		if init := x.val(fr, phiA.Edges[pi]); !init.isNilConst() && !(init.Op == "list" && len(init.Args) == 0) {
+			return nil, false
+		}
+	}
+	// body: loads, the varargs array, and exactly one append to phiA or one
+	// store dst[idx] = e into a slice made (outside the loop) with the length
+	// of the source
 	var app *ssa.Call
+	var fill *ssa.Store
+	var dst *ssa.MakeSlice
 	for _, ins := range body.Instrs {
 		switch v := ins.(type) {
-		case *ssa.IndexAddr, *ssa.FieldAddr, *ssa.Field, *ssa.Index, *ssa.Alloc, *ssa.Slice, *ssa.Jump, *ssa.DebugRef, *ssa.ChangeType, *ssa.Convert, *ssa.BinOp:
+		case *ssa.IndexAddr, *ssa.FieldAddr, *ssa.Field, *ssa.Index, *ssa.Alloc, *ssa.Slice, *ssa.Jump, *ssa.DebugRef, *ssa.ChangeType, *ssa.Convert:
+		case *ssa.BinOp:
 		case *ssa.UnOp:
 			if v.Op != token.MUL {
 				return nil, false
@@ -142,15 +184,23 @@ func (x *Exec) tryComprehension(fr *Frame, li *loopInfo, pred *ssa.BasicBlock, s
 			if !ok {
 				return nil, false
 			}
-			if _, isAlloc := ia.X.(*ssa.Alloc); !isAlloc {
+			if _, isAlloc := ia.X.(*ssa.Alloc); isAlloc {
+				continue // the varargs array of append
+			}
+			m, isMake := ia.X.(*ssa.MakeSlice)
+			if !isMake || li.blocks[m.Block()] || ia.Index != idx || fill != nil || phiA != nil {
 				return nil, false
 			}
+			fill, dst = v, m
 		case *ssa.Call:
 			if cal := v.Call.StaticCallee(); cal != nil && trivialGetter(cal) {
 				continue // r.Name() and the like: a field read behind a method
 			}
+			if b, ok := v.Call.Value.(*ssa.Builtin); ok && b.Name() == "len" {
+				continue
+			}
 			b, ok := v.Call.Value.(*ssa.Builtin)
-			if !ok || b.Name() != "append" || app != nil || v.Call.Args[0] != phiA {
+			if !ok || b.Name() != "append" || app != nil || phiA == nil || v.Call.Args[0] != phiA {
 				return nil, false
 			}
 			app = v
@@ -158,19 +208,42 @@ func (x *Exec) tryComprehension(fr *Frame, li *loopInfo, pred *ssa.BasicBlock, s
 			return nil, false
 		}
 	}
-	if app == nil || phiA.Edges[bi] != app {
-		return nil, false
-	}
-	// the loop variable and the accumulator are not used after the loop except
-	// through the accumulating phi
-	for _, ref := range *inc.Referrers() {
-		if !li.blocks[ref.Block()] {
+	switch {
+	case phiA != nil:
+		if app == nil || phiA.Edges[bi] != app {
 			return nil, false
 		}
-	}
-	for _, ref := range *phiI.Referrers() {
-		if !li.blocks[ref.Block()] {
+	case fill != nil:
+		// made with exactly the source's length, and not visible to anything
+		// before the loop has filled it
+		if x.val(fr, dst.Len) != x.val(fr, lenCallOutside(fr, x, lenCall, h, st)) {
 			return nil, false
+		}
+		for _, ref := range *dst.Referrers() {
+			if li.blocks[ref.Block()] {
+				continue
+			}
+			if !exit.Dominates(ref.Block()) {
+				return nil, false
+			}
+		}
+	default:
+		return nil, false
+	}
+	// the loop variable is not used after the loop
+	var loopVars []ssa.Value
+	loopVars = append(loopVars, phiI)
+	if hinc != nil {
+		loopVars = append(loopVars, hinc)
+	}
+	if binc != nil {
+		loopVars = append(loopVars, binc)
+	}
+	for _, v := range loopVars {
+		for _, ref := range *v.Referrers() {
+			if !li.blocks[ref.Block()] {
+				return nil, false
+			}
 		}
 	}
 	// evaluate the body once for the generic position
@@ -178,18 +251,34 @@ func (x *Exec) tryComprehension(fr *Frame, li *loopInfo, pred *ssa.BasicBlock, s
 	k := famIdx(id)
 	f2 := fr.clone()
 	s2 := st.clone()
-	f2.env[inc] = k
-	f2.env[phiI] = mk("bin", "-", types.Typ[types.Int], k, tConst("1", types.Typ[types.Int]))
-	f2.env[phiA] = tNil
-	// all alternative values of the appended element (several when the source
-	// is an abstract list: one per member)
+	if hinc != nil {
+		f2.env[hinc] = k
+		f2.env[phiI] = mk("bin", "-", types.Typ[types.Int], k, tConst("1", types.Typ[types.Int]))
+	} else {
+		f2.env[phiI] = k
+	}
+	if phiA != nil {
+		f2.env[phiA] = tNil
+	}
+	for _, ins := range hdrEval {
+		alts := x.step(f2, ins, s2)
+		if len(alts) != 1 {
+			return nil, false
+		}
+		s2 = alts[0].st
+		if v, ok := ins.(ssa.Value); ok && alts[0].val != nil {
+			f2.env[v] = alts[0].val
+		}
+	}
+	// all alternative values of the element (several when the source is an
+	// abstract list: one per member)
 	var elems []*Term
 	okAll := true
 	var run func(i int, f *Frame, s *State)
 	run = func(i int, f *Frame, s *State) {
 		for ; i < len(body.Instrs) && okAll; i++ {
 			ins := body.Instrs[i]
-			if ins == ssa.Instruction(app) {
+			if app != nil && ins == ssa.Instruction(app) {
 				es, ok := x.sliceElems(s, x.val(f, app.Call.Args[1]))
 				if !ok || len(es) != 1 {
 					okAll = false
@@ -197,6 +286,15 @@ func (x *Exec) tryComprehension(fr *Frame, li *loopInfo, pred *ssa.BasicBlock, s
 				}
 				elems = append(elems, es[0])
 				continue
+			}
+			if fill != nil && ins == ssa.Instruction(fill) {
+				elems = append(elems, x.val(f, fill.Val))
+				continue
+			}
+			if fill != nil {
+				if ia, ok := ins.(*ssa.IndexAddr); ok && ia.X == ssa.Value(dst) {
+					continue // the address of dst[idx]
+				}
 			}
 			if _, isJ := ins.(*ssa.Jump); isJ {
 				continue
@@ -225,7 +323,14 @@ func (x *Exec) tryComprehension(fr *Frame, li *loopInfo, pred *ssa.BasicBlock, s
 	if !okAll {
 		return nil, false
 	}
-	srcT := x.val(fr, src)
+	srcT := x.val(f2, src)
+	lenT := x.val(f2, lenCall)
+	var resTyp types.Type
+	if phiA != nil {
+		resTyp = phiA.Type()
+	} else {
+		resTyp = dst.Type()
+	}
 	var fam *Term
 	switch {
 	case srcT.Op == "list" || srcT.isNilConst():
@@ -243,17 +348,30 @@ func (x *Exec) tryComprehension(fr *Frame, li *loopInfo, pred *ssa.BasicBlock, s
 		}
 		fam = tList(srcT.Op == "list" && srcT.Aux == "exact" && len(ms) == len(srcT.Args), ms)
 	case len(elems) == 1 && elems[0].contains(k):
-		fam = mk("fam", id, phiA.Type(), srcT, elems[0])
+		fam = mk("fam", id, resTyp, srcT, elems[0])
 	default:
 		return nil, false
 	}
 	fo := fr.clone()
-	fo.env[phiA] = fam
-	fo.env[phiI] = mk("bin", "-", types.Typ[types.Int], x.val(fr, lenCall), tConst("1", types.Typ[types.Int]))
-	fo.env[inc] = x.val(fr, lenCall)
+	if phiA != nil {
+		fo.env[phiA] = fam
+	} else {
+		fo.env[dst] = fam
+	}
+	for _, ins := range hdrEval {
+		if v, ok := ins.(ssa.Value); ok {
+			fo.env[v] = f2.env[v]
+		}
+	}
+	if hinc != nil {
+		fo.env[phiI] = mk("bin", "-", types.Typ[types.Int], lenT, tConst("1", types.Typ[types.Int]))
+		fo.env[hinc] = lenT
+	} else {
+		fo.env[phiI] = lenT
+	}
 	fo.env[cmp] = tFalse
 	so := st.clone()
-	so.note(h.Instrs[0].Pos(), "list comprehension over %s summarised", x.val(fr, src))
+	so.note(h.Instrs[0].Pos(), "list comprehension over %s summarised", srcT)
 	if fam.Op == "list" && srcT.Op == "list" {
 		// the image of an abstract list: same length, and its provenance is kept
 		// so that rules can read it as "e of the members of src"
@@ -262,6 +380,33 @@ func (x *Exec) tryComprehension(fr *Frame, li *loopInfo, pred *ssa.BasicBlock, s
 	}
 	x.NComprehended++
 	return []blockOut{{kind: outLoopExit, st: so, fr: fo, target: exit, from: h}}, true
+}
+
+// lenCallOutside: the bound of the loop as a value that can be evaluated in
+// the frame before the loop (the len call itself when it lies outside the
+// loop; for a bound re-evaluated in the header, the call is evaluated once
+// against the entry state).
+func lenCallOutside(fr *Frame, x *Exec, lenCall *ssa.Call, h *ssa.BasicBlock, st *State) ssa.Value {
+	if lenCall.Block() != h {
+		return lenCall
+	}
+	f2 := fr.clone()
+	s2 := st.clone()
+	for _, ins := range h.Instrs {
+		switch ins.(type) {
+		case *ssa.FieldAddr, *ssa.UnOp, *ssa.Call:
+			alts := x.step(f2, ins, s2)
+			if len(alts) != 1 {
+				return lenCall
+			}
+			s2 = alts[0].st
+			if v, ok := ins.(ssa.Value); ok && alts[0].val != nil {
+				f2.env[v] = alts[0].val
+				fr.env[v] = alts[0].val
+			}
+		}
+	}
+	return lenCall
 }
 
 // anyMember returns a term for "some element of the opaque slice b" (used when
